@@ -243,15 +243,35 @@ pub fn run(tier: Tier) -> i32 {
                     let need = total.min(dict as usize) as u64;
                     for m in [0u64, 1, need / 2, need.saturating_sub(1), need, need + 1] {
                         for how in 0..5 {
-                            items.push((total, dict, m, how));
+                            items.push((total, dict, m, how, false));
+                            items.push((total, dict, m, how, true));
                         }
                     }
                 }
             }
             par_for(items.len() as u64, |i| {
-                let (total, dict, m, how) = items[i as usize];
+                let (total, dict, m, how, zero_tail) = items[i as usize];
+                // (zero_tail: 100 varied bytes, then only 0x00 bytes - as literals and as copies of them)
                 let mut prog = vec![Sym::L(0x61)];
                 let mut produced = 1usize;
+                if zero_tail {
+                    while produced < total.min(100) {
+                        prog.push(Sym::L((produced * 37 + 1) as u8 | 1));
+                        produced += 1;
+                    }
+                    let mut k = 0usize;
+                    while produced < total {
+                        if k % 3 == 2 && total - produced >= 2 && produced > 101 {
+                            let l = (total - produced).min(20);
+                            prog.push(Sym::M(1, l as u32));
+                            produced += l;
+                        } else {
+                            prog.push(Sym::L(0));
+                            produced += 1;
+                        }
+                        k += 1;
+                    }
+                }
                 while produced < total {
                     let l = (total - produced).min(273);
                     if l < 2 {
@@ -285,7 +305,7 @@ pub fn run(tier: Tier) -> i32 {
                 let all_ok = if o.ops.is_empty() { o.v.is_ok() } else { o.ops.iter().all(|r| r.v.is_ok()) };
                 let ok = if need <= m { all_ok && o.out.0 == e.expect } else { failed && e.expect.starts_with(&o.out.0) };
                 if !ok {
-                    ctx.violation(&case, &format!("one literal then copies only, {} output bytes, dict {}, limit {}: needed window {} => {}", total, dict, m, need, if need <= m { "Ok, identical to unlimited" } else { "Err, delivered bytes a prefix" }), &o, None);
+                    ctx.violation(&case, &format!("{}, {} output bytes, dict {}, limit {}: needed window {} => {}", if zero_tail { "100 varied bytes then only zero bytes" } else { "one literal then copies only" }, total, dict, m, need, if need <= m { "Ok, identical to unlimited" } else { "Err, delivered bytes a prefix" }), &o, None);
                 }
             });
             ctx.scope_done(name, items.len() as u64, t0, "size in header / marker / provided size / raw decoder / Stream");
